@@ -44,6 +44,8 @@ pub enum Act {
     Collect {},
     Fail {},
     Try { script: Vec<Act> },
+    /// send an arbitrary message to a contract (only used by the C16 nested-call probe; no model counterpart)
+    Raw { target: String, msg: cosmwasm_std::Binary },
 }
 
 #[derive(Serialize, Deserialize, Clone, Debug)]
@@ -125,6 +127,7 @@ fn adv_execute(deps: DepsMut, env: Env, _info: MessageInfo, msg: AdvExec) -> Std
                         resp = resp.add_message(WasmMsg::Execute { contract_addr: env.contract.address.to_string(), funds: vec![],
                             msg: to_json_binary(&AdvExec::Fail {})? });
                     }
+                    Act::Raw { target, msg } => { resp = resp.add_message(WasmMsg::Execute { contract_addr: target, funds: vec![], msg }); }
                     Act::Try { script } => {
                         resp = resp.add_submessage(SubMsg::reply_on_error(WasmMsg::Execute { contract_addr: env.contract.address.to_string(),
                             funds: vec![], msg: to_json_binary(&AdvExec::Run { loan, script })? }, 1));
@@ -192,6 +195,7 @@ pub fn act_coq(a: &Act) -> String {
         Act::Collect {} => "ACollect".into(),
         Act::Fail {} => "AFail".into(),
         Act::Try { script } => format!("(ATry {})", script_coq(script)),
+        Act::Raw { .. } => "AFail".into(),      // never part of a model-compared history
     }
 }
 pub fn op_coq(o: &Op) -> String {
